@@ -4,6 +4,14 @@ import json
 props=[json.loads(l) for l in open('properties.jsonl')]
 TRUST="Trusted base: the Go type checker/SSA builder of x/tools v0.29.0; the std functions on the allow-lists behave as documented; exported operations receive values produced by the repo's constructors."
 claimed={
+'C16':dict(technique="static analysis: value-flow rules on SSA for the VERS normalisation pipeline",
+ text="Invariance under reordering, spacing and repetition comes from one mechanism; the rules decide that every consumer of constraints is fed through it: raw list only to the normaliser, whitespace removed before any use, de-duplication keyed on the cleaned text, sort before extraction with a version-only comparator. Given C01 for the scheme, the normalised list is unique for pairwise non-equivalent versions.",
+ note=TRUST+" Not decided: invariance of which error is reported first; relies on C01 for the scheme's order.",
+ design="DESIGN.md 5 (C16)"),
+'C17':dict(technique="static analysis: dispatch-table extraction, guard/dominance rules, error-propagation rule on SSA",
+ text="Scheme routing is decided exactly from the dispatch table and the Ecosystem types each scheme function creates; each syntactic rejection condition of the statement is shown to guard acceptance; no repo error is dropped in vers/cmd; errors imply false.",
+ note=TRUST+" Not decided: that every single-point corruption of an arbitrary valid range trips one of the conditions (behavioural).",
+ design="DESIGN.md 5 (C17)"),
 'C18':dict(technique="static analysis: value-flow (taint) rules on SSA, interprocedural",
  text="All three clauses are flow facts decided for all 40 constructors and String() methods: the stored text is the parameter through nothing but TrimSpace; the untrimmed parameter reaches only TrimSpace, the text field, an emptiness test and messages; possibly-untrimmed text is never read from Compare's operands or Contains' probe. Sufficient-style rules with the accepted idioms enumerated; any other use is reported with its position.",
  note=TRUST+" Re-parse stability additionally relies on C19 (determinism). Internal whitespace handling inside range strings is not part of this property.",
